@@ -217,6 +217,8 @@ type analysis struct {
 	pseudo      int
 	confCallers []string
 	summaries   map[string][][2]string // method id -> (field, kind) on receiver
+	pkgs        []*pkgInfo
+	reentrant   []callSite // direct re-acquisition inside one function (callee == caller)
 	errs        []string
 }
 
@@ -590,6 +592,11 @@ func (c *fctx) acquire(x ast.Expr, op string, st state, n ast.Node) state {
 	mode := "excl"
 	if op == "RLock" {
 		mode = "shared"
+	}
+	if _, already := st[name]; already {
+		// Lock / RLock of a lock this function already holds: self deadlock (RWMutex read locks are not reentrant either
+		// once a writer is queued)
+		c.a.reentrant = append(c.a.reentrant, callSite{callee: c.fn, caller: c.fn, held: heldList(st), pos: c.pos(n)})
 	}
 	st = st.clone()
 	c.a.bals = append(c.a.bals, bal{fn: c.fn, lock: name, mode: mode, how: "matched", pos: c.pos(n)})
@@ -1518,6 +1525,7 @@ func analyseAll(repo string, dirs []string) (*analysis, error) {
 		if err != nil {
 			return nil, err
 		}
+		a.pkgs = append(a.pkgs, p)
 		a.analysePkg(p)
 	}
 	if len(a.errs) > 0 {
@@ -1586,6 +1594,63 @@ func entrySets(a *analysis) map[string]heldSet {
 		}
 	}
 	return entry
+}
+
+// acquiredLocks: the locks each function acquires itself, and transitively through its (synchronous) same-package calls.
+func acquiredLocks(a *analysis) (direct, trans map[string]map[string]bool) {
+	direct = map[string]map[string]bool{}
+	for _, bl := range a.bals {
+		if bl.how == "unheld" {
+			continue
+		}
+		if direct[bl.fn] == nil {
+			direct[bl.fn] = map[string]bool{}
+		}
+		direct[bl.fn][bl.lock] = true
+	}
+	trans = map[string]map[string]bool{}
+	for f, ls := range direct {
+		trans[f] = map[string]bool{}
+		for l := range ls {
+			trans[f][l] = true
+		}
+	}
+	for changed := true; changed; {
+		changed = false
+		for _, st := range a.sites {
+			for l := range trans[st.callee] {
+				if trans[st.caller] == nil {
+					trans[st.caller] = map[string]bool{}
+				}
+				if !trans[st.caller][l] {
+					trans[st.caller][l] = true
+					changed = true
+				}
+			}
+		}
+	}
+	return direct, trans
+}
+
+// reentrantCalls mirrors the Lean check `noReentrant` (used by the unit tests and for the error text only).
+func reentrantCalls(a *analysis, entry map[string]heldSet) []string {
+	_, trans := acquiredLocks(a)
+	var out []string
+	for _, st := range append(append([]callSite{}, a.sites...), a.reentrant...) {
+		heldAt := toSet(st.held)
+		for l, m := range entry[st.caller] {
+			if heldAt[l] != "excl" {
+				heldAt[l] = m
+			}
+		}
+		for l := range heldAt {
+			if trans[st.callee][l] {
+				out = append(out, "reentrant-lock:"+l+"@"+st.caller+"->"+st.callee)
+			}
+		}
+	}
+	sort.Strings(out)
+	return out
 }
 
 func gen(repo string) (map[string]string, error) {
@@ -1871,6 +1936,58 @@ func gen(repo string) (map[string]string, error) {
 	strList("allowSignatures", allowSigs)
 	b.WriteString("def table : Table :=\n  { guards := guards, entry := entry, roots := roots, initFns := initFns, initRoots := initRoots,\n" +
 		"    sites := sites, accesses := accesses, allow := allow }\n\n")
+	// ---- re-entrant acquisition: locks each function acquires itself / transitively through same-package calls
+	direct, trans := acquiredLocks(a)
+	emitAcq := func(name string, m map[string]map[string]bool) {
+		fmt.Fprintf(&b, "def %s : List (Nat × List Lock) := [\n", name)
+		first := true
+		for _, f := range funcNames {
+			if len(m[f]) == 0 {
+				continue
+			}
+			var ids []int
+			for l := range m[f] {
+				ids = append(ids, lockID[l])
+			}
+			sort.Ints(ids)
+			var parts []string
+			for _, i := range ids {
+				parts = append(parts, fmt.Sprint(i))
+			}
+			if !first {
+				b.WriteString(",\n")
+			}
+			first = false
+			fmt.Fprintf(&b, "  (%d, [%s])  /- %s -/", fnID[f], strings.Join(parts, ", "), f)
+		}
+		b.WriteString("\n]\n\n")
+	}
+	emitAcq("acqDirect", direct)
+	emitAcq("acqTrans", trans)
+	b.WriteString("def selfReacquire : List CallSite := [\n")
+	for i, s := range a.reentrant {
+		sep := ","
+		if i == len(a.reentrant)-1 {
+			sep = ""
+		}
+		fmt.Fprintf(&b, "  ⟨%d, %d, %s, %s⟩%s\n", fnID[s.callee], fnID[s.caller], heldLean(s.held), fg.LeanStr(s.pos), sep)
+	}
+	b.WriteString("]\n\n")
+	// ---- objects from a lister / informer cache
+	uses := cacheObjectUses(repo, a.pkgs)
+	b.WriteString("def cacheUses : List CacheUse := [\n")
+	for i, u := range uses {
+		sep := ","
+		if i == len(uses)-1 {
+			sep = ""
+		}
+		fi, ok := fnID[u.fn]
+		if !ok {
+			fi = 0
+		}
+		fmt.Fprintf(&b, "  ⟨%d, .%s, %s, %s⟩%s  -- %s\n", fi, u.kind, fg.LeanStr(u.what), fg.LeanStr(u.pos), sep, u.fn)
+	}
+	b.WriteString("]\n\n")
 	b.WriteString("def balance : List Bal := [\n")
 	for i, bl := range a.bals {
 		sep := ","
